@@ -146,11 +146,29 @@ class proceed:
         self.suspended = False
         return self.interactor
 
+    def _leave(self):
+        """Give the caller its handlers back.
+
+        Overlays and probes that were entered or left while fn was running
+        (and are not confined to it) are entered or left for the caller too.
+        """
+        curr = HandlerCollection.current.get()
+        if curr is not self.inner:
+            before = {id(acc) for _, acc in self.inner.handler_pairs}
+            after = curr.handler_pairs if curr is not None else []
+            gone = before - {id(acc) for _, acc in after}
+            new = [pair for pair in after if id(pair[1]) not in before]
+            kept = self.outer.handler_pairs if self.outer is not None else []
+            if new or any(id(acc) in gone for _, acc in kept):
+                pairs = [p for p in kept if id(p[1]) not in gone] + new
+                self.outer = HandlerCollection(pairs) if pairs else None
+        HandlerCollection.current.set(self.outer)
+        return curr
+
     def suspend(self):
         """The function is a generator and is about to yield."""
         if not self.suspended:
-            self.inner = HandlerCollection.current.get()
-            HandlerCollection.current.set(self.outer)
+            self.inner = self._leave() or HandlerCollection([])
             self.suspended = True
 
     def resume(self):
@@ -164,7 +182,7 @@ class proceed:
         # A generator that is closed or dropped ends while it is suspended:
         # the caller's handlers are already in place.
         if not self.suspended:
-            HandlerCollection.current.set(self.outer)
+            self._leave()
         self.interactor.exit()
 
 
